@@ -12,13 +12,15 @@ RULE = ("real runs of both samplers (tolerances 1e-3..0.5, caps hit and not hit,
 def idem(c):
     c = dict(c)
     c["idempotence"] = True
+    if c.get("cell") in ("default-G2u", "nonuniform-analytic", "tolerance-loose", "shrinkage-t", "nlive-10", "reparam-logit", "default-G4u", "tolerance-tight"):
+        c["cap_at_convergence"] = True
     return c
 
 
 def main():
     chk = Check("C15", "exploration")
     assert_repo()
-    run_matrix(chk, props=("C15",), deciding=["C15.condition_trace", "C15.trace_checked", "C15.second_run_checked", "C15.resume_after_finish_checked"], rule=RULE,
+    run_matrix(chk, props=("C15",), deciding=["C15.condition_trace", "C15.trace_checked", "C15.second_run_checked", "C15.resume_after_finish_checked", "C15.cap_at_convergence_checked"], rule=RULE,
                finish=False, resume_fraction=10**9, extra_case=idem)
     if chk.replay_case:
         return
